@@ -514,6 +514,32 @@ func sentinelHandled(inf *types.Info, fd *ast.FuncDecl, sentinel types.Object) (
 		}
 		return true
 	})
+	// `switch err { case NoSuchFieldErr: /* nothing */ … }` as the last statement of a loop body: the empty clause is
+	// the `continue`
+	if !found {
+		ast.Inspect(fd.Body, func(n ast.Node) bool {
+			sw, ok := n.(*ast.SwitchStmt)
+			if !ok || sw.Tag == nil {
+				return true
+			}
+			blk, _ := par[sw].(*ast.BlockStmt)
+			if blk == nil || len(blk.List) == 0 || blk.List[len(blk.List)-1] != ast.Stmt(sw) {
+				return true
+			}
+			switch par[blk].(type) {
+			case *ast.RangeStmt, *ast.ForStmt:
+			default:
+				return true
+			}
+			for _, cl := range sw.Body.List {
+				cc := cl.(*ast.CaseClause)
+				if len(cc.List) == 1 && core.ObjOf(inf, cc.List[0]) == sentinel && len(cc.Body) == 0 {
+					compared, found, pos = true, true, cc.Pos()
+				}
+			}
+			return true
+		})
+	}
 	if compared && !found {
 		why = "the sentinel branch does not skip the value"
 	}
